@@ -291,7 +291,7 @@ def miri_leg(agg, seeds):
     procs = []
     for s in seeds:
         cmd = ["cargo", "+nightly", "miri", "run", "--offline", "--manifest-path",
-               os.path.join(common.HARNESS_DIR, "Cargo.toml"), "--bin", "gcheap", "--", "random", str(s), "12", "6", "40"]
+               common._harness_manifest(), "--bin", "gcheap", "--", "random", str(s), "12", "6", "40"]
         procs.append((s, subprocess.Popen(cmd, env=env, stdout=subprocess.PIPE, stderr=subprocess.PIPE, text=True)))
         if s == seeds[0]:
             # first one builds; wait for it so the others reuse the build
